@@ -1,11 +1,15 @@
 #!/bin/sh
-# usage: try_mutant.sh <patch.diff> <check id>...   applies the patch to /repo, runs the checks (quick), undoes it
+# usage: try_mutant.sh <patch.diff> <check id>...   applies the patch to a SCRATCH worktree of /repo
+# (never to /repo itself), runs the checks (quick) against it, removes the change again
 patch=$1; shift
-git -C /repo status --short | grep -q . && { echo "repo dirty"; exit 2; }
-git -C /repo apply "$patch" || { echo "patch does not apply"; exit 2; }
+wt=/tmp/repo-mut
+[ -d $wt ] || git -C /repo worktree add -q $wt HEAD || exit 2
+git -C $wt checkout -q --detach $(git -C /repo rev-parse HEAD) 2>/dev/null
+git -C $wt checkout -- . ; git -C $wt clean -fdq
+git -C $wt apply "$patch" || { echo "patch does not apply"; exit 2; }
 for c in "$@"; do
-  /verif/check $c --tier ${TIER:-quick} > /tmp/mut_$c.log 2>&1
+  VERIF_REPO=$wt /verif/check $c --tier ${TIER:-quick} > /tmp/mut_$c.log 2>&1
   echo "  $c exit=$? : $(grep -c '^VIOLATION' /tmp/mut_$c.log) violation(s); $(grep '^  violated' /tmp/mut_$c.log | head -2 | cut -c1-200)"
   grep "^INCONCLUSIVE" /tmp/mut_$c.log | head -2 | cut -c1-300
 done
-git -C /repo checkout -- .
+git -C $wt checkout -- .
